@@ -54,6 +54,9 @@ Relations(c) ==
    \* the cluster solver accepts spheres up to size parameter 1000 (its documentation and its guard): every size
    \* class here is inside that range
    \cup (IF c.opt = "norad_full" THEN {"field_mie_vs_multisphere"} ELSE {})
+   \* both solvers asked for the radial component as well (where it matters: not far away, not beyond the order cap)
+   \cup (IF c.opt = "rad_full" /\ c.pos \in {"near", "mid"} /\ c.x \notin {"xlarge", "huge"}
+         THEN {"field_mie_vs_multisphere_radial"} ELSE {})
    \cup (IF c.opt = "norad_asym" /\ c.pos = "far" THEN {"field_mie_vs_textbook_farfield"} ELSE {})
    \cup (IF c.opt = "rad_full" THEN {"field_finite"} ELSE {})
 
